@@ -250,6 +250,9 @@ func (app *App) createRepairState(hostname, channel string) (*ReplicationRepairS
 	if err != nil {
 		return nil, err
 	}
+	if status == nil {
+		return nil, fmt.Errorf("host %s has no replica status on channel %s", hostname, channel)
+	}
 
 	result := ReplicationRepairState{
 		LastAttempt:      time.Now(),
